@@ -346,7 +346,15 @@ def replay(desc, col):
 
 
 REGISTER = True
-MUTANTS = []
+MUTANTS = [
+    {"what": "Mappings.energy: leak cells dropped when per_tensor=True", "caught": True, "how": "energy:breakdown:missing"},
+    {"what": "Mappings.latency: np.maximum over components replaced by +", "caught": True, "how": "latency:total"},
+    {"what": "Mappings._get_cols: key matches column parts by prefix instead of equality", "caught": True,
+     "how": "crash:ValueError (nested names make the prefix ambiguous; the call goes through must())"},
+    {"what": "Mappings.resource_usage: np.maximum replaced by +", "caught": True, "how": "usage:max",
+     "note": "survived the first version: final results carry ONE consolidated reservation column per memory, so max == sum on them; caught after adding the table copy with 3 reservation columns per memory"},
+    {"what": "run_model: detailed <einsum><SEP>energy columns not multiplied by n_instances", "caught": True, "how": "energy:columns-vs-total"},
+]
 MANIFEST = {
     "level_text": "Every aggregation method of Mappings (energy under all 16 per_* combinations, actions under all 8, latency under all 4, resource_usage; list_if_one_mapping both ways; whole result set and single-row views) is compared per row with an independent re-aggregation of the raw <SEP> columns of the result table, and the raw per-Einsum columns are compared with the Total columns, on mapper results for N generated small specs. No counterexample found; not a proof.",
     "level_note": "Domain: results with breakdown columns (default eval_in_detail=True); 1-3 Einsums, Main/(Toll)/GLB/MAC, leak, n_instances, nested names. Trusted: the column grammar quoted in ASSUMPTIONS.",
